@@ -380,7 +380,7 @@ def run(cx):
             if len(cl) == 1:
                 rc = [I.shorten_vars(x[1]) for x in I.returns(cl[0], F)]
                 ok_map = len(rc) == 1 and __import__('re').match(r'^SBOX\[\(\$\w+ as usize\)\]$', rc[0]) is not None
-        cx.add('I-SM4', 'tau', ok_map or st == [(str(k), 'SBOX[(buf[%d] as usize)]' % k) for k in range(4)] and r == ['from_be_bytes:u32(buf)'],
+        cx.add('I-SM4', 'tau', ok_map or st == [(str(k), 'SBOX[(buf[%d] as usize)]' % k) for k in range(4)] and r == ['from_be_bytes:u32(buf#{E|[0]|[1]|[2]|[3]})'],
                'tau applies the S-box to each of the four bytes of the word in place', f.loc(), {'stores': st, 'ret': r})
     # ---- key schedule
     fn = cx.fn('<impl Sm4Cipher>::new', 'I-SM4')
@@ -402,15 +402,19 @@ def run(cx):
             fk_ok = first == [(str(k), 'BitXor(%s[%d], FK[%d])' % (mk, k, k)) for k in range(4)] and init in (['repeat{0}'], [])
         cx.add('I-SM4', 'new/fk', fk_ok, '(K0..K3) = MK ^ FK with MK read big-endian', fn.loc())
         rets = I.returns(fn, F, True)
-        ret_ok = [I.shorten_vars(v) for _, v in rets if v.startswith('Result::Ok')] == ['Result::Ok{Sm4Cipher::Sm4Cipher{rk}}']
-        if not ret_ok:
-            # the round-key array is only written in bulk (so it is shown by its initialiser): the object is built from the
-            # local `rk` that new/rk decided
-            from ..builder import root_local
-            objs = [(b, i, st) for b, i, st in fn.stmts() if st['k'] == 'assign' and st['rv']['k'] == 'aggr' and st['rv'].get('akind') == 'adt' and (st['rv'].get('adt') or '').endswith('Sm4Cipher')]
-            ret_ok = len(objs) == 1 and len(objs[0][2]['rv']['ops']) == 1 and objs[0][2]['rv']['ops'][0]['k'] in ('copy', 'move') and \
-                fn.locals[root_local(P, objs[0][2]['rv']['ops'][0], objs[0][0], objs[0][1]) or 0].get('name') == 'rk' and \
-                [I.shorten_vars(v) for _, v in rets if v.startswith('Result::Ok')] == ['Result::Ok{Sm4Cipher::Sm4Cipher{repeat{0}}}']
+        # the object is built from the local `rk` (decided by new/rk) after every write of it: the whole-array read sees a
+        # version that contains all element stores and bulk copies into rk
+        from ..builder import root_local
+        objs = [(b, i, st) for b, i, st in fn.stmts() if st['k'] == 'assign' and st['rv']['k'] == 'aggr' and st['rv'].get('akind') == 'adt' and (st['rv'].get('adt') or '').endswith('Sm4Cipher')]
+        ret_ok = False
+        if len(objs) == 1 and len(objs[0][2]['rv']['ops']) == 1 and objs[0][2]['rv']['ops'][0]['k'] in ('copy', 'move'):
+            b_, i_, st_ = objs[0]
+            rl = root_local(P, st_['rv']['ops'][0], b_, i_)
+            if rl is not None and fn.locals[rl].get('name') == 'rk':
+                writes = {(s_[0], s_[1]) for s_ in P.elem_stores() if s_[2] == ('local', rl) and not s_[4]}
+                seen = P.reach_root(('local', rl), None, b_, i_) or ()
+                ret_ok = bool(writes) and writes <= set(x for x in seen if x != 'E')
+        ret_ok = ret_ok and len([v for _, v in rets if v.startswith('Result::Ok{Sm4Cipher::Sm4Cipher{')]) == 1
         cx.add('I-SM4', 'new/ret', ret_ok, 'the cipher object holds exactly the 32 round keys', fn.loc())
     block_fn(cx, 'encrypt', lambda r: IDX[r], 'round keys in order rk0..rk31')
     block_fn(cx, 'decrypt', lambda r: 'SubWithOverflow(31, %s).0' % IDX[r], 'round keys in reverse order rk31..rk0 (index 31 - i)')
